@@ -811,6 +811,45 @@ func (g *semGen) literalOK(t *TypeRef, seen map[*Struct]bool) bool {
 	return false
 }
 
+// litDepth: the least struct nesting a literal of type t needs (containers can
+// be empty); 1<<20 when there is none on this path.
+func (g *semGen) litDepth(t *TypeRef, seen map[*Struct]bool) int {
+	rt := t.Root()
+	if rt.Kind != TNamed {
+		return 0
+	}
+	d, ok := rt.Target.(*Struct)
+	if !ok {
+		return 0
+	}
+	if seen[d] {
+		return 1 << 20
+	}
+	seen[d] = true
+	defer delete(seen, d)
+	if d.Kind == KUnion {
+		best := 1 << 20
+		for _, f := range d.Fields {
+			if !g.canHaveLiteral(f.Type) {
+				continue
+			}
+			if x := g.litDepth(f.Type, seen); x < best {
+				best = x
+			}
+		}
+		return best + 1
+	}
+	worst := 0
+	for _, f := range d.Fields {
+		if f.Req == ReqRequired && f.Default == nil {
+			if x := g.litDepth(f.Type, seen); x > worst {
+				worst = x
+			}
+		}
+	}
+	return worst + 1
+}
+
 // elemOK: container elements of type t may be written in the value being drawn.
 func (g *semGen) elemOK(t *TypeRef) bool {
 	if !g.canHaveLiteral(t) || g.mentionsStructAtOrAbove(t, g.structLimit, 0) {
@@ -1065,6 +1104,9 @@ func intLit(r *core.Rand, v int64) string {
 // constFor draws a constant expression valid for type t. Constants of rank >=
 // maxConstRank are not referenced (acyclic).
 func (g *semGen) constFor(f *File, t *TypeRef, maxConstRank int, depth int) *Const {
+	if depth < -64 {
+		panic("constFor: runaway recursion on " + TypeString(t))
+	}
 	r := g.r
 	// reference to an existing constant of the very same declared type
 	if r.Chance(1, 5) && (g.structLimit == math.MaxInt32 || !g.mentionsStructAtOrAbove(t, 0, 0)) {
@@ -1215,11 +1257,11 @@ func (g *semGen) constFor(f *File, t *TypeRef, maxConstRank int, depth int) *Con
 				}
 				fl := ok[r.Intn(len(ok))]
 				if depth <= 0 {
-					// out of depth budget: take a member that does not open another struct value
+					// out of depth budget: take the member with the shallowest possible literal
+					best := 1 << 30
 					for _, cand := range ok {
-						if structLike(cand.Type) == nil {
-							fl = cand
-							break
+						if d := g.litDepth(cand.Type, map[*Struct]bool{}); d < best {
+							best, fl = d, cand
 						}
 					}
 				}
